@@ -53,6 +53,15 @@ fn main() {
 }
 
 fn dispatch(op: &str, args: &[&str], payload: &[u8]) -> String {
+    // ops guard the library calls they make; a panic that still escapes one (a call the op did not expect to panic) is
+    // reported as a reply instead of killing the process
+    match util::guard(std::panic::AssertUnwindSafe(|| dispatch_inner(op, args, payload))) {
+        Ok(s) => s,
+        Err(p) => format!("{{\"op_panicked\":{}}}", p),
+    }
+}
+
+fn dispatch_inner(op: &str, args: &[&str], payload: &[u8]) -> String {
     match op {
         "ping" => format!("{{\"variant\":\"{}\",\"hooks\":true}}", util::variant()),
         "parse" => ops_tree::op_parse(args, payload),
